@@ -65,7 +65,9 @@ negative controls (all re-run in the thorough tier, the first and a rotating hal
           ErrDropsComment -> ErrAtomic, KeepCopies -> InvModeAlgebra;
           StockFormat BadShip = nosep / indent1 / nofirstnl / keepsep -> InvLayout;
           corrupted control traces for both trace modules.
-binding:  spec -> code: (1) NORM lines through the three entry points of the comment rule; (2) every EDGE of uniq
+binding:  (replay jobs and the recording of histories run in 3 forked worker processes; every job carries its own seeds, so
+          verdicts do not depend on scheduling)
+          spec -> code: (1) NORM lines through the three entry points of the comment rule; (2) every EDGE of uniq
           and dup replayed on a world BUILT for its from-state (document parsed through one of 6 input forms, handles
           taken by identity, held elements made two ways), random walks and ALL paths of ctor with long-lived objects,
           new_empty_file() + append at the end of every ctor path; (3) CASE lines through format_field (list / iterator
@@ -245,7 +247,7 @@ def norm_case(case, entry, seed):
                 lst.append_comment(line)
                 lst.append("zz")
     except Exception as ex:      # noqa: BLE001 -- an exception of the library is an observation
-        if not core.raised_by_code_under_test(ex):
+        if not CX.from_repo(ex):
             raise
         exc = ex
     got = f.dump()
@@ -332,9 +334,11 @@ def run_edge(scn, edge, cseed, stress, rseed, known):
     conc = CX.Conc(cseed, stress)
     rng = random.Random("x17-edge-%s" % rseed)
     world = CX.World(conc, edge["from"], rng)
-    d = world.diff(edge["from"])
-    if d is not None:
-        return "the start world could not be built: %s" % d
+    world.deep = rseed % 3 == 0
+    if rseed % 8 == 0:
+        d = world.diff(edge["from"])
+        if d is not None:
+            return "the start world could not be built: %s" % d
     res = world.apply(edge["call"], rng)
     v = judge(world, edge, res)
     if edge["call"]["op"] == "set":
@@ -378,6 +382,32 @@ def run_path(scn, start, path, cseed, stress, rseed, known, with_file):
         if d is not None:
             return "after %d calls (%s): %s" % (len(path), describe_call(conc, path[-1]["call"]), d)
     return None
+
+
+def _job(job):
+    """one replay job in a worker process -> (message or None, known hits, setter entry points, input forms, diagnostics)"""
+    kind, case = job
+    known = Known()
+    API_COUNT.clear()
+    FORM_COUNT.clear()
+    del DRIFTS[:]
+    hits = []
+    if kind == "norm":
+        v = norm_case(case["case"], case["entry"], case["seed"])
+        msg = v[1] if v is not None and v[0] == "viol" else None
+        if v is not None and v[0] == "known":
+            hits.append((v[1], v[2]))
+    elif kind == "edge":
+        msg = run_edge(case["scn"], case["edge"], case["cseed"], case["stress"], case["rseed"], known)
+    elif kind == "path":
+        msg = run_path(case["scn"], case["start"], case["path"], case["cseed"], case["stress"], case["rseed"], known, case["scn"] == "ctor")
+    elif kind == "fmt":
+        msg = fmt_case(case["case"], case["seed"], known)
+    else:
+        msg = view_case(case["case"], case["seed"])
+    for kid, n in known.hits.items():
+        hits.extend([(kid, known.example[kid])] * n)
+    return msg, hits, dict(API_COUNT), dict(FORM_COUNT), list(DRIFTS)
 
 
 def strip_edge(e):
@@ -629,6 +659,8 @@ def run(ctx):
         "trusted: TLC; the projection of a paragraph through dump(), iteration, get_kvpair_element, comment_element and object identity; the real parser as the lexer of its own output (cross-checked against a line scanner written from the format); value texts of the setters (' ' + stripped text + newline: C05, X10)",
         "the tree has no one_value_per_line_formatter(indentation, trailing_separator, immediate_empty_line): the only stock formatter is one_value_per_line_trailing_separator",
     ]
+    import multiprocessing
+    procs = multiprocessing.get_context("fork").Pool(3)          # replay workers (forked before any thread exists)
     pool = ThreadPoolExecutor(max_workers=2)          # at most two TLC runs at a time, two workers each
 
     def emit_fc(scn, depth):
@@ -694,12 +726,8 @@ def run(ctx):
     t1 = time.time()
     fc_traces, fc_seeds = [], []
     plan = (["small"] * 110 + ["fields"] * 3 + ["lines"] * 3) if quick else (["small"] * 900 + ["fields"] * 20 + ["lines"] * 20)
-    for size in plan:
-        tseed = rng.getrandbits(32)
-        tr = record_fc(tseed, size, ctx)
-        if tr is not None:
-            fc_traces.append(tr)
-            fc_seeds.append((tseed, size))
+    rec_jobs = [(rng.getrandbits(32), size) for size in plan]
+    rec_async = procs.map_async(_record_job, rec_jobs, chunksize=4)
     sf_events, sf_seeds, sf_info = [], [], []
     for i in range(400 if quick else 6000):
         tseed = rng.getrandbits(32)
@@ -714,36 +742,28 @@ def run(ctx):
             sf_events.append(ev)
             sf_seeds.append((tseed, "inter"))
             sf_info.append(info)
+    for (tseed, size), (tr, err) in zip(rec_jobs, rec_async.get()):
+        if err is not None:
+            if len(ctx.violations) < 5:
+                ctx.violation({"kind": "fctrace", "seed": tseed, "size": size}, err)
+            continue
+        fc_traces.append(tr)
+        fc_seeds.append((tseed, size))
     tm["record"] = round(time.time() - t1, 1)
     batch = 80 if quick else 160
     v_fc = [(i, pool.submit(validate_fc, ctx, fc_traces[i:i + batch])) for i in range(0, len(fc_traces), batch)]
     v_sf = pool.submit(validate_sf, ctx, sf_events)
 
-    # ---- (1) the comment rule
+    # ---- spec -> code: the printed cases become JOBS (case + its own seeds), executed by a pool of worker processes in
+    # the order they were made; the main process only collects verdicts
     t2 = time.time()
-    norm_cases, r_norm = f_norm.result()
-    n_norm = 0
+    jobs = []              # (kind, replay case without "kind", arguments of the job function)
+    norm_cases, _ = f_norm.result()
     for i, case in enumerate(norm_cases):
         entries = ENTRIES if (not quick or i % 3 == 0 or case["k"]["e"] == "broken") else [ENTRIES[(i + ctx.seed) % 3]]
         for entry in entries:
-            if len(ctx.violations) >= 5:
-                break
-            seed = rng.getrandbits(32)
-            v = norm_case(case, entry, seed)
-            n_norm += 1
-            ctx.case_seen(("norm", i, entry))
-            if v is None:
-                continue
-            if v[0] == "known":
-                known.hit(v[1], v[2])
-            else:
-                ctx.violation({"kind": "norm", "case": case, "entry": entry, "seed": seed}, v[1])
+            jobs.append(("norm", {"case": case, "entry": entry, "seed": rng.getrandbits(32)}))
     ctx.sample("NORM: " + json.dumps(norm_cases[700], separators=(",", ":")))
-    tm["norm_replay"] = round(time.time() - t2, 1)
-
-    # ---- (2) worlds
-    t3 = time.time()
-    n_edges = n_paths = 0
     per_op = {}
     lts = {}
     for scn in ("uniq", "dup", "ctor"):
@@ -761,17 +781,10 @@ def run(ctx):
         if scn != "ctor":
             # every edge on a world built for its from-state (quick: every edge out of the start world, a rotating two thirds of the rest)
             for i, e in enumerate(edges):
-                if len(ctx.violations) >= 5:
-                    break
                 if quick and wkey(e["from"]) != start and (i + ctx.seed) % 3 == 0:
                     continue
-                cseed, rseed = rng.getrandbits(32), rng.getrandbits(32)
-                stress = [0, 1, 0, 2, 1][i % 5]
-                msg = run_edge(scn, e, cseed, stress, rseed, known)
-                n_edges += 1
-                ctx.case_seen(("edge", scn, i))
-                if msg:
-                    ctx.violation({"kind": "edge", "scn": scn, "edge": strip_edge(e), "cseed": cseed, "stress": stress, "rseed": rseed}, msg)
+                jobs.append(("edge", {"scn": scn, "edge": strip_edge(e), "cseed": rng.getrandbits(32), "stress": [0, 1, 0, 2, 1][i % 5],
+                                      "rseed": rng.getrandbits(32)}))
             if scn == "uniq":
                 e = edges[len(edges) // 3]
                 ctx.sample("EDGE: " + json.dumps({k: e[k] for k in ("call", "res", "to")}, separators=(",", ":"))[:700])
@@ -802,49 +815,47 @@ def run(ctx):
                     k = wkey(e["to"])
                 paths.append(acc)
         for pi, path in enumerate(paths):
+            jobs.append(("path", {"scn": scn, "start": start_world, "path": [strip_edge(e) for e in path], "cseed": rng.getrandbits(32),
+                                  "stress": [0, 1, 2][pi % 3], "rseed": rng.getrandbits(32)}))
+    got, r_sf = f_sf.result()
+    cases = got["CASE"]
+    verdicts = {}
+    for i, case in enumerate(cases):
+        verdicts[case["r"]["v"]] = verdicts.get(case["r"]["v"], 0) + 1
+        if not (quick and len(case["inp"]) == 3 and case["r"]["v"] != "ok" and (i + ctx.seed) % 2):
+            jobs.append(("fmt", {"case": case, "seed": rng.getrandbits(32)}))
+        if (case["r"]["v"] == "ok" and case["sep"] in ("sp", "cm") and case["form"] == "list"
+                and not any(t[1] == "ww" and case["sep"] == "sp" for t in case["inp"])):
+            jobs.append(("view", {"case": case, "seed": rng.getrandbits(32)}))
+    tm["make_jobs"] = round(time.time() - t2, 1)
+    t3 = time.time()
+    counts = {}
+    apis, forms = {}, {}
+    for (kind, case), (msg, hits, api_c, form_c, drifts) in zip(jobs, procs.imap(_job, jobs, chunksize=40)):
+        counts[kind] = counts.get(kind, 0) + 1
+        ctx.case_seen((kind, counts[kind]))
+        for kid, ex in hits:
+            known.hit(kid, ex)
+        for k, v in api_c.items():
+            apis[k] = apis.get(k, 0) + v
+        for k, v in form_c.items():
+            forms[k] = forms.get(k, 0) + v
+        DRIFTS.extend(drifts)
+        if msg:
+            ctx.violation(dict(case, kind=kind), msg)
             if len(ctx.violations) >= 5:
                 break
-            cseed, rseed = rng.getrandbits(32), rng.getrandbits(32)
-            stress = [0, 1, 2][pi % 3]
-            msg = run_path(scn, start_world, path, cseed, stress, rseed, known, scn == "ctor")
-            n_paths += 1
-            ctx.case_seen(("path", scn, pi))
-            if msg:
-                ctx.violation({"kind": "path", "scn": scn, "start": start_world, "path": [strip_edge(e) for e in path], "cseed": cseed,
-                               "stress": stress, "rseed": rseed}, msg)
-    tm["worlds_replay"] = round(time.time() - t3, 1)
+    procs.terminate()
+    tm["jobs_replay"] = round(time.time() - t3, 1)
+    n_edges, n_paths = counts.get("edge", 0), counts.get("path", 0)
     ctx.extra["lts"] = lts
     ctx.extra["edges_per_call"] = per_op
     ctx.extra["edges_replayed"] = n_edges
     ctx.extra["histories_replayed"] = n_paths
-    ctx.extra["norm_cases_replayed"] = n_norm
-    ctx.extra["setter_entry_points"] = dict(API_COUNT)
-    ctx.extra["file_object_kinds"] = dict(FORM_COUNT)
-
-    # ---- (3) the stock formatter
-    t4 = time.time()
-    got, r_sf = f_sf.result()
-    cases = got["CASE"]
-    n_fmt = n_view = 0
-    verdicts = {}
-    for i, case in enumerate(cases):
-        verdicts[case["r"]["v"]] = verdicts.get(case["r"]["v"], 0) + 1
-        if len(ctx.violations) >= 5:
-            break
-        if not (quick and len(case["inp"]) == 3 and case["r"]["v"] != "ok" and (i + ctx.seed) % 2):
-            seed = rng.getrandbits(32)
-            msg = fmt_case(case, seed, known)
-            n_fmt += 1
-            ctx.case_seen(("fmt", i))
-            if msg:
-                ctx.violation({"kind": "fmt", "case": case, "seed": seed}, msg)
-        if (case["r"]["v"] == "ok" and case["sep"] in ("sp", "cm") and case["form"] == "list"
-                and not any(t[1] == "ww" and case["sep"] == "sp" for t in case["inp"])):
-            seed = rng.getrandbits(32)
-            msg = view_case(case, seed)
-            n_view += 1
-            if msg:
-                ctx.violation({"kind": "view", "case": case, "seed": seed}, msg)
+    ctx.extra["norm_cases_replayed"] = counts.get("norm", 0)
+    ctx.extra["setter_entry_points"] = apis
+    ctx.extra["file_object_kinds"] = forms
+    n_fmt, n_view = counts.get("fmt", 0), counts.get("view", 0)
     for case in got["TOK"]:
         seed = rng.getrandbits(32)
         msg = tok_case(case, seed)
@@ -852,7 +863,6 @@ def run(ctx):
         if msg:
             ctx.violation({"kind": "tok", "case": case, "seed": seed}, msg)
     ctx.sample("CASE: " + json.dumps(cases[len(cases) // 2], separators=(",", ":"))[:500])
-    tm["format_replay"] = round(time.time() - t4, 1)
     ctx.extra["format_cases"] = {"printed": len(cases), "replayed": n_fmt, "through_list_view": n_view, "verdicts": verdicts,
                                  "tlc_states": r_sf.distinct, "tlc_wall_s": round(r_sf.wall, 1)}
 
@@ -922,21 +932,24 @@ def _count(it):
     return out
 
 
-def record_fc(tseed, size, ctx=None):
+def _record_job(job):
+    """-> (trace, None) | (None, message): an exception of the library while a history is recorded is an observation"""
+    tseed, size = job
     rng = random.Random("x17-fc-%s" % tseed)
     try:
         rec = CX.Recorder(rng, size)
         for _ in range(rng.choice([10, 20, 30, 40]) if size == "small" else rng.choice([10, 20])):
             rec.step()
     except Exception as ex:      # noqa: BLE001
-        if not core.raised_by_code_under_test(ex):
+        if not CX.from_repo(ex):
             raise
         import traceback
-        if ctx is not None and len(ctx.violations) < 5:
-            ctx.violation({"kind": "fctrace", "seed": tseed, "size": size},
-                          "unexpected %s from the library while recording a history: %s" % (type(ex).__name__, traceback.format_exc().strip().splitlines()[-3:]))
-        return None
-    return rec.trace()
+        return None, "unexpected %s from the library while recording a history: %s" % (type(ex).__name__, traceback.format_exc().strip().splitlines()[-3:])
+    return rec.trace(), None
+
+
+def record_fc(tseed, size):
+    return _record_job((tseed, size))[0]
 
 
 def validate_fc(ctx, traces, with_controls=True):
